@@ -50,6 +50,7 @@ NONDICT = [5, None, [], "s", [["method", "GET"]], True]
 
 def canon(x):
     if isinstance(x, (bytes, bytearray)): return "b:" + bytes(x).hex()
+    if hasattr(x, "fields") and not isinstance(x, dict): return canon(tuple(x.fields))     # a Headers object, by value
     if isinstance(x, dict): return {str(k): canon(v) for k, v in sorted(x.items(), key=lambda kv: str(kv[0]))}
     if isinstance(x, (list, tuple)): return [canon(v) for v in x]
     if isinstance(x, float): return repr(x)
@@ -65,8 +66,11 @@ def snap(f):
             "modified": bool(f.modified())}
 
 
-def mkflow(kind):
+def mkflow(kind, init=None):
+    """`init`: shape of the header / trailer lists the flow starts with, per message:
+    {"req_h": keep|empty, "resp_h": keep|empty, "req_t": none|empty|some, "resp_t": none|empty|some}"""
     from mitmproxy.test import tflow
+    from mitmproxy import http
     if kind == "resp": f = tflow.tflow(resp=True)
     elif kind == "noresp": f = tflow.tflow(resp=False)
     elif kind == "ws": f = tflow.twebsocketflow()
@@ -75,6 +79,14 @@ def mkflow(kind):
     f.id = "4747"
     f.timestamp_created = 946681200.0
     f.client_conn.id = "c47-client"; f.server_conn.id = "c47-server"     # tflow draws random uuids
+    init = init or {}
+    for which in ("req", "resp"):
+        m = getattr(f, "request" if which == "req" else "response", None)
+        if m is None: continue
+        if init.get(which + "_h") == "empty": m.headers = http.Headers()
+        t = init.get(which + "_t", "none")
+        if t == "empty": m.trailers = http.Headers()
+        elif t == "some": m.trailers = http.Headers([(b"x-trailer", b"t")])
     return f
 
 
@@ -213,7 +225,8 @@ class Check(PropertyCheck):
             "prior backup(); documents mix valid values with unknown keys, non-dict sub-documents, malformed ports/status codes, "
             "malformed header/trailer lists, odd hosts and non-text contents; the per-field value pools include inputs on which the "
             "real setters raise exception classes other than ValueError/TypeError/AttributeError (non-finite floats -> "
-            "OverflowError), lone surrogates, huge ints and deeply nested containers (~60% all-valid, ~40% with >=1 invalid part at a "
+            "OverflowError), lone surrogates, huge ints and deeply nested containers; initial flows also come with EMPTY header lists and with "
+            "absent / empty / non-empty trailers on either message, and sessions in which an accepted update first empties them (~60% all-valid, ~40% with >=1 invalid part at a "
             "random position). distinct = distinct session; non-trivial = at least one field update reached a setter.")
     budget = {"quick": 1500, "thorough": 40000}
     time_budget = {"quick": 35, "thorough": 500}
@@ -307,7 +320,20 @@ class Check(PropertyCheck):
             n = rng.weighted([(5, 1), (4, 2), (2, 3)])
             docs = [self._doc(rng, rng.chance(0.4)) for _ in range(n)]
             if rng.chance(0.03): docs[rng.randrange(n)] = rng.pick([[], 5, "x", None, [{"comment": "c"}]])
-            yield {"flow": kind, "pre_backup": int(rng.chance(0.25)), "docs": docs}
+            init = None
+            if rng.chance(0.4):
+                init = {"req_h": rng.pick(["keep", "empty"]), "resp_h": rng.pick(["keep", "empty"]),
+                        "req_t": rng.pick(["none", "empty", "some"]), "resp_t": rng.pick(["none", "empty", "some"])}
+            if rng.chance(0.2):
+                # an accepted update first empties header/trailer lists, then a mixed valid+invalid document follows
+                msg = rng.pick(["request", "response"])
+                docs = [{msg: {rng.pick(["headers", "trailers"]): [], **({"trailers": []} if rng.chance(0.3) else {})}}] + docs[:2]
+                bad = rng.pick([("port", "abc"), ("bogus", 1), ("code", "x"), ("headers", [["a"]])])
+                docs[-1] = {msg: {"headers": [["n1", "v1"]], "trailers": [["t1", "v1"]], "content": "new", bad[0]: bad[1]}} \
+                    if rng.chance(0.6) else docs[-1]
+            c = {"flow": kind, "pre_backup": int(rng.chance(0.25)), "docs": docs}
+            if init: c["init"] = init
+            yield c
 
     # ------------------------------------------------------------------ implementation
     def setup(self, tier):
@@ -322,7 +348,7 @@ class Check(PropertyCheck):
     def _analyse(self, case):
         """reference replay of the whole session on scratch flows: per document the protocol tokens, the state after
         applying every update, and whether any setter step fails"""
-        f = mkflow(case["flow"])
+        f = mkflow(case["flow"], case.get("init"))
         if case["pre_backup"]: f.backup()
         has_req = hasattr(f, "request")
         out = []
@@ -392,7 +418,7 @@ class Check(PropertyCheck):
 
     def impl(self, case):
         w = self.web()
-        f = mkflow(case["flow"])
+        f = mkflow(case["flow"], case.get("init"))
         w.master.view.clear()
         w.master.view.add([f])
         if case["pre_backup"]: f.backup()
@@ -520,6 +546,11 @@ class Check(PropertyCheck):
                     r[key] = v; c["docs"][i]["request"] = r; yield c
 
     def exhaustive(self, tier):
+        for init in ({"req_h": "empty", "resp_h": "empty", "req_t": "empty", "resp_t": "empty"}, {"req_t": "some", "resp_t": "some"}):
+            for msg in ("request", "response"):
+                for k, v in (("headers", [["n", "v"]]), ("trailers", [["t", "v"]]), ("content", "new")):
+                    for bad in (("port", "abc"), ("bogus", 1), ("code", "x")):
+                        yield {"flow": "resp", "pre_backup": 0, "init": init, "docs": [{msg: {k: v, bad[0]: bad[1]}}]}
         for kind in ("resp", "noresp", "tcp"):
             for pb in (0, 1):
                 for k in REQ_KEYS:
